@@ -60,6 +60,7 @@ namespace vf
       bool cooling_models = true;      // half-space / plate / mass conserving ... (need ridges)
       bool custom_tags = true;
       bool depth_surfaces = false;     // point-wise min/max depth of area features
+      int depth_surface_interior = 3;  // at most this many interior value points per surface
       bool water = false;              // tian water content models
       bool sections = true;            // slabs/faults may carry per-coordinate section overrides
       bool any_gravity_sign = false;   // gravity magnitude may be zero or negative (C03: 'arbitrary gravity magnitude')
@@ -407,7 +408,7 @@ namespace vf
           for (size_t i = 0; i < m.coords.size(); ++i)
             if (ch.chance(30) && m.coords[i][0] != 0 && m.coords[i][1] != 0)
               surf.push(J::arr({J(ch.chance(40) ? m.dmin : m.dmin + ch.lattice(0.1, 1.0, 0.1) * (m.dmax - m.dmin)), J::arr({jp(m.coords[i][0], m.coords[i][1])})}));
-          const int ni = static_cast<int>(ch.range(0, 3));
+          const int ni = static_cast<int>(ch.range(0, o.depth_surface_interior));
           for (int i = 0; i < ni; ++i)
             {
               const size_t e = ch.index(m.coords.size());
